@@ -26,7 +26,8 @@ Inductive event :=
 | EAssertFail.                         (* the `assert len(failed_task_ops) > 0` would fire *)
 
 Record oracle := {
-  launch_fails : nat -> bool;          (* start_execution of this op raises a ConductorError *)
+  launch_fails : nat -> bool;          (* start_execution of this op raises a ConductorError (since D34 also what subprocess / mkdir
+                                          raise when the command or the output path cannot be used: TaskFailed) *)
   rc_of : nat -> N;                    (* return code of this op's process when it exits *)
   pick : nat -> nat                    (* k-th wait: index (mod #processes) of the one that exits *)
 }.
